@@ -129,6 +129,37 @@ func runC03(c *Ctx, faults bool) {
 				}
 			}
 		}
+		// sometimes the deleted branch's name lives on as a tag on the remote
+		// (pointing at history that does not hold the branch's objects)
+		if c.serverGC && h.tagLikeBranch && h.Cur != "main" && t.Bool(1, 3, "stale-branch-whose-name-is-also-a-tag") {
+			x := h.Cur
+			doPush(c, w, h, u1, remote, remote2, allowIncomplete, nil, exempt, "push", "-q", "origin", "refs/heads/"+x)
+			if c.Res.Class != "" {
+				break
+			}
+			root, _ := w.GitQ(u1, "rev-list", "--max-parents=0", "main")
+			root = strings.TrimSpace(strings.Split(root, "\n")[0])
+			if _, has := w.Refs(remote)["refs/heads/"+x]; has && root != "" {
+				w.Git(u1, "tag", "-f", x, root)
+				known := false
+				for _, tg := range h.Tags {
+					known = known || tg == x
+				}
+				if !known {
+					h.Tags = append(h.Tags, x)
+				}
+				doPush(c, w, h, u1, remote, remote2, allowIncomplete, nil, exempt, "push", "-q", "-f", "origin", "refs/tags/"+x)
+				if c.Res.Class != "" {
+					break
+				}
+				w.Git(remote, "update-ref", "-d", "refs/heads/"+x)
+				h.log("remote side deleted refs/heads/%s (a tag of that name stays)", x)
+				c.Probe("stale-branch-named-like-remote-tag")
+				if serverGC(c, w, remote, remote2) {
+					c.Probe("server-gc-dropped-objects")
+				}
+			}
+		}
 		// sometimes lose local objects first
 		var lost []string
 		if t.Bool(1, 6, "lose-local-objects") {
@@ -163,11 +194,11 @@ func runC03(c *Ctx, faults bool) {
 	}
 }
 
-func doPush(c *Ctx, w *World, h *Hist, u1, remote, remote2 string, allowIncomplete bool, lost []string, exempt map[string]bool) {
+func doPush(c *Ctx, w *World, h *Hist, u1, remote, remote2 string, allowIncomplete bool, lost []string, exempt map[string]bool, forced ...string) {
 	t := c.T
 	target := remote
 	rname := "origin"
-	if remote2 != "" && t.Choose(3, "push-remote") == 0 {
+	if len(forced) == 0 && remote2 != "" && t.Choose(3, "push-remote") == 0 {
 		target, rname = remote2, "second"
 	}
 	before := w.Refs(target)
@@ -185,16 +216,28 @@ func doPush(c *Ctx, w *World, h *Hist, u1, remote, remote2 string, allowIncomple
 		}
 	}
 	var args []string
-	kind := t.Choose(8, "push-kind")
+	kind := 8
+	if len(forced) == 0 {
+		kind = t.Choose(8, "push-kind")
+	}
+	// a tag may carry the branch's name: spell the branch out then
+	cur := h.Cur
+	for _, tg := range h.Tags {
+		if tg == cur {
+			cur = "refs/heads/" + h.Cur
+		}
+	}
 	switch kind {
+	case 8:
+		args = forced
 	case 0, 1:
-		args = []string{"push", "-q", rname, h.Cur}
+		args = []string{"push", "-q", rname, cur}
 	case 2:
 		args = []string{"push", "-q", rname, "--all"}
 	case 3:
 		args = []string{"push", "-q", rname, "--tags"}
 	case 4:
-		args = []string{"push", "-q", "--force", rname, h.Cur}
+		args = []string{"push", "-q", "--force", rname, cur}
 	case 5:
 		// delete a remote branch if there is one
 		var bs []string
@@ -210,7 +253,7 @@ func doPush(c *Ctx, w *World, h *Hist, u1, remote, remote2 string, allowIncomple
 			args = []string{"push", "-q", rname, "--delete", bs[t.Choose(len(bs), "delete-branch")]}
 		}
 	case 6:
-		args = []string{"lfs", "push", rname, h.Cur}
+		args = []string{"lfs", "push", rname, cur}
 	default:
 		args = []string{"lfs", "push", "--all", rname}
 	}
